@@ -23,7 +23,7 @@ CLIENT = 'openfilter/observability/client.py'
 
 TRUSTED = [
     'PyVC executor and its encoding of Python semantics (DESIGN 2.3), z3 5.1.0 / cvc5',
-    'fnmatch.fnmatch is an uninterpreted predicate FN(name, pattern), the same in code and specification',
+    'fnmatch.fnmatch is an uninterpreted predicate FN(name, pattern), the same in code and specification, with one library fact: a pattern without the glob characters * ? [ matches by equality (os.path.normcase is the identity on POSIX)',
     'OpenTelemetry data model: a metric is one of Sum(monotonic or not) / Histogram / Gauge with a list of data points (three-constructor datatype)',
     'os.getenv / open / yaml.safe_load: return the configured value or raise (assumed contracts)',
 ]
@@ -35,6 +35,11 @@ UNDECIDED_CLAUSES = []
 EXPLANATION = 'Postconditions of the real exporter over symbolic metric names, patterns and values; the allow predicate is taken from the property statement.'
 
 FN = z3.Function('fnmatch', z3.StringSort(), z3.StringSort(), z3.BoolSort())
+
+
+def literal_axiom(name, p):
+    """library fact about fnmatch.fnmatch: a pattern without glob characters matches exactly itself"""
+    return z3.Implies(z3.Not(z3.Or(z3.Contains(p, z3.StringVal('*')), z3.Contains(p, z3.StringVal('?')), z3.Contains(p, z3.StringVal('[')))), FN(name, p) == (name == p))
 
 
 def allowed_spec(allow, name):
@@ -83,7 +88,24 @@ class IsAllowedUnit(Unit):
     )
 
     def shapes(self, tier):
-        return [None, 0, 1, 2] + ([3] if tier == 'thorough' else []) + [('concrete', i) for i in range(len(CONCRETE_LISTS))]
+        return [None, 0, 1, 2] + ([3] if tier == 'thorough' else []) + [('concrete', i) for i in range(len(CONCRETE_LISTS))] + ['two exporters']
+
+    def run_two(self, ex, name):
+        """the decision of one exporter depends on ITS allow-list only: other exporters of the process (other allow-lists) were asked about the same and about other metric
+        names before, in any order"""
+        lists = [CONCRETE_LISTS[1], CONCRETE_LISTS[3], ()]
+        order = [(0, 1, 2), (1, 0, 2), (2, 0, 1), (0, 2, 1)][ex.choose(4, 'order')]
+        exps = [exporter(ex, set(l)) for l in lists]
+        other = z3.String('other_name')
+        ex.model_vars = dict(name=name, other_name=other)
+        ex.replay_info = dict(n=None, two=[list(lists[i]) for i in order])
+        for i in order:
+            ex.call_value(ex.getattr(exps[i], '_is_allowed'), [other], {})
+            r = ex.call_value(ex.getattr(exps[i], '_is_allowed'), [name], {})
+            ex.oblige(f'C16.only_allowed: with several exporters in one process each decides by its OWN allow-list (allow-list {list(lists[i])})', ex.zbool(r) == allowed_spec_concrete(lists[i], name))
+        ex.cover('returned')
+        ex.outcome = 'return'
+        return ex
 
     def run(self, shape, dec):
         ex = new_exec(dec, BRIDGE)
@@ -98,7 +120,11 @@ class IsAllowedUnit(Unit):
             ex.outcome = 'return'
             ex.oblige('C16.only_allowed: _is_allowed(name) == (name is an entry or matches a wildcard entry of the allow-list)', ex.zbool(r) == allowed_spec_concrete(cpats, name))
             return ex
+        if shape == 'two exporters':
+            return self.run_two(ex, name)
         pats = None if shape is None else [z3.String(f'p{i}') for i in range(shape)]
+        for p_ in pats or []:
+            ex.assume(literal_axiom(name, p_))
         me = exporter(ex, None if pats is None else set(pats))
         ex.model_vars = dict(name=name, **{f'p{i}': p for i, p in enumerate(pats or [])})
         ex.replay_info = dict(n=shape)
@@ -114,6 +140,18 @@ class IsAllowedUnit(Unit):
     def replay(self, failure):
         from openfilter.observability.bridge import OTelLineageExporter
         m = failure['model'] or {}
+        if failure['extra'].get('two'):
+            obs = []
+            exps = [(l, OTelLineageExporter(None, allowlist=set(l))) for l in failure['extra']['two']]
+            import fnmatch
+            for l, e in exps:
+                e._is_allowed(m.get('other_name', 'o'))
+                got = e._is_allowed(m.get('name', 'x'))
+                want = bool(l) and any(m.get('name', 'x') == p or fnmatch.fnmatch(m.get('name', 'x'), p) for p in l)
+                if got != want:
+                    obs.append(f'exporter with allow-list {l}: _is_allowed({m.get("name")!r}) -> {got}, its allow-list says {want}')
+            return {'confirmed': bool(obs), 'inputs': {'exporters (in this order)': failure['extra']['two'], 'metric': m.get('name')}, 'observed': obs or 'every exporter decides by its own list',
+                    'required': 'a metric is exported only if it matches the allow-list of THAT exporter'}
         n = failure['extra']['n']
         allow = None if n is None else {m[f'p{i}'] for i in range(n)}
         if failure['extra'].get('concrete') is not None:
